@@ -69,7 +69,24 @@ def spec_state(spec):
         [(str(s.term), [repr(st) for st in s.scoped_terms], list(s.columns)) for s in (spec.structure or [])],
         canon(spec.transform_state),
         canon(spec.encoder_state),
+        _structure_factors(spec),
     )
+
+
+def _structure_factors(spec):
+    """what the factors recorded inside the structure carry: scale, reduced flag, attached data values (a digest; None when, as
+    after materialization, no values are retained) and the variables with the layer they were resolved from"""
+    out = []
+    for row in (spec.structure or []):
+        for st in row.scoped_terms:
+            fs = []
+            for sf in st.factors:
+                f = sf.factor
+                vals = getattr(f, "values", None)
+                fs.append((getattr(f, "expr", None), bool(sf.reduced), None if vals is None else digest(getattr(vals, "__wrapped__", vals)),
+                           sorted((str(v), getattr(v, "source", None)) for v in (getattr(f, "variables", None) or ()))))
+            out.append((repr(getattr(st, "scale", None)), fs))
+    return out
 
 
 def matrix_state(mm):
